@@ -53,4 +53,18 @@ theorem shapeE_bin0_eq (s0 b0 hl0 hh0 blo bhi p_sysH p_mu p_sysN : ℝ) (_hs0 : 
     Gen.shapeE_bin0 realPrim s0 b0 hl0 hh0 blo bhi p_sysH p_mu p_sysN = Gen.shapeE_ref0 realPrim s0 b0 hl0 hh0 blo bhi p_sysH p_mu p_sysN := by
   unfold Gen.shapeE_bin0 Gen.shapeE_ref0; shape_eq2
 
+set_option maxRecDepth 8192 in
+set_option maxHeartbeats 1600000 in
+/-- shapeF, bin 0: tensor code = declared formula, for all parameters and all positive data -/
+theorem shapeF_bin0_eq (s0 s1 es0 es1 b0 b1 u0 u1 eb0 eb1 p_mu p_uncorr_0 p_uncorr_1 p_stat_SR_0 p_stat_SR_1 : ℝ) (_hs0 : 0 < s0) (_hs1 : 0 < s1) (_hes0 : 0 < es0) (_hes1 : 0 < es1) (_hb0 : 0 < b0) (_hb1 : 0 < b1) (_hu0 : 0 < u0) (_hu1 : 0 < u1) (_heb0 : 0 < eb0) (_heb1 : 0 < eb1) :
+    Gen.shapeF_bin0 realPrim s0 s1 es0 es1 b0 b1 u0 u1 eb0 eb1 p_mu p_uncorr_0 p_uncorr_1 p_stat_SR_0 p_stat_SR_1 = Gen.shapeF_ref0 realPrim s0 s1 es0 es1 b0 b1 u0 u1 eb0 eb1 p_mu p_uncorr_0 p_uncorr_1 p_stat_SR_0 p_stat_SR_1 := by
+  unfold Gen.shapeF_bin0 Gen.shapeF_ref0; shape_eq2
+
+set_option maxRecDepth 8192 in
+set_option maxHeartbeats 1600000 in
+/-- shapeF, bin 1: tensor code = declared formula, for all parameters and all positive data -/
+theorem shapeF_bin1_eq (s0 s1 es0 es1 b0 b1 u0 u1 eb0 eb1 p_mu p_uncorr_0 p_uncorr_1 p_stat_SR_0 p_stat_SR_1 : ℝ) (_hs0 : 0 < s0) (_hs1 : 0 < s1) (_hes0 : 0 < es0) (_hes1 : 0 < es1) (_hb0 : 0 < b0) (_hb1 : 0 < b1) (_hu0 : 0 < u0) (_hu1 : 0 < u1) (_heb0 : 0 < eb0) (_heb1 : 0 < eb1) :
+    Gen.shapeF_bin1 realPrim s0 s1 es0 es1 b0 b1 u0 u1 eb0 eb1 p_mu p_uncorr_0 p_uncorr_1 p_stat_SR_0 p_stat_SR_1 = Gen.shapeF_ref1 realPrim s0 s1 es0 es1 b0 b1 u0 u1 eb0 eb1 p_mu p_uncorr_0 p_uncorr_1 p_stat_SR_0 p_stat_SR_1 := by
+  unfold Gen.shapeF_bin1 Gen.shapeF_ref1; shape_eq2
+
 end Pyhf.Props.C01
